@@ -61,6 +61,7 @@ class CallTracker(object):
     self.calls = {}
     self.order = []
     self.default_timeout = default_timeout
+    self.noarg_pending = []
     self.loop = SimLoop.INSTANCE
     self._install()
 
@@ -106,6 +107,8 @@ class CallTracker(object):
     def _DispatchMethod(disp, method, args, kwargs, timeout, start_time):
       ar = orig(disp, method, args, kwargs, timeout, start_time)
       cid = tracker.id_from_args(args, kwargs)
+      if cid is None and not args and not kwargs and tracker.noarg_pending:
+        cid = tracker.noarg_pending.pop(0)       # a call without arguments (issued in this order)
       c = tracker.calls.get(cid)
       if c is not None and isinstance(ar, CountingAsyncResult):
         ar._call = c
@@ -150,6 +153,8 @@ class CallTracker(object):
     c.issue_step = self.loop.steps
     c.eff_timeout = timeout or self.default_timeout
     self.loop.note('call.issue', '%s T=%s' % (cid, timeout))
+    if not args and not kwargs:
+      self.noarg_pending.append(cid)
     try:
       if fn is not None:
         c.ar = fn()
@@ -235,7 +240,10 @@ def exc_name(o):
   wrapper carrying the real error as inner_exception."""
   inner = getattr(o, 'inner_exception', None)
   if type(o).__name__ == 'ScalesError' and inner is not None:
-    return type(inner).__name__
+    o = inner
+  if isinstance(o, OSError) and type(o).__name__ == 'TimeoutError':
+    # the interpreter's own TimeoutError (errno ETIMEDOUT), not the library's
+    return 'OSTimeoutError'
   return type(o).__name__
 
 
